@@ -35,6 +35,8 @@ def run(ctx, replay=None):
         ("plan order", lambda l: l["act"]["plan"].reverse()),
         ("changed files", lambda l: l["obs"]["changed"].append("zz") if False else l["obs"].__setitem__("changed", l["obs"]["changed"][:-1])),
         ("key identity", lambda l: l["obs"]["postFacts"][l["act"]["plan"][0]].__setitem__("certKeyId", "ec:forged")),
+        ("modification-time order", lambda l: l["post"]["mt"].reverse()),
+        ("issuer named by the certificate", lambda l: l["post"]["art"][l["act"]["plan"][-1]].__setitem__("iss", "")),
         ("rerun", lambda l: l["obs"].__setitem__("rerun", {"result": "ok", "plan": ["r"], "changed": ["r"]})),
     ]:
         rows = copy.deepcopy(lines)
@@ -68,14 +70,14 @@ def run(ctx, replay=None):
     d = ctx.spec_dir()
     name = "MCRepo_cov.cfg"
     with open(os.path.join(d, name), "w") as f:
-        f.write('CONSTANTS\n  Ents = {"r", "s", "l"}\n  Parent <- ChainParent\n  Contents = {0, 1}\n  FlagSets <- CoreFlagSets\n  EnvActs <- AllEnv\n'
-                '  FaultActs <- AllFault\n  MaxEnv = 1\nINIT Init\nNEXT Next\nINVARIANTS TypeInv ConvergedAfterDefault Idempotent\nCHECK_DEADLOCK FALSE\n')
+        f.write('CONSTANTS\n  Ents = {"r", "s", "l"}\n  Parent <- ChainParent\n  AltParents <- ChainAlt\n  Contents = {0, 1}\n  FlagSets <- ExpiryFlagSets\n  EnvActs <- FullEnv\n'
+                '  FaultActs <- AllFault\n  UsesProfile <- LeafProfile\n  MaxEnv = 1\nINIT Init\nNEXT Next\nINVARIANTS TypeInv ConvergedAfterDefault Idempotent\nCHECK_DEADLOCK FALSE\n')
     rc, out = ctx.tlc("MCRepo", cfg=name, workers=8, extra=["-coverage", "1"], timeout=1200)
     acts = {}
     for m in re.finditer(r"<(\w+) line \d+, col \d+ to line \d+, col \d+ of module Repo(?: \([\d ]+\))?>: (\d+):(\d+)", out):
         acts[m.group(1)] = max(acts.get(m.group(1), 0), int(m.group(3)))
     acts["WriteOKAct"] = acts.get("Step", 0)      # WriteOKAct is the bare Step([name |-> "WriteOK"]) disjunct
-    expected = ["EditAct", "TouchAct", "DeleteAct", "TruncateAct", "StripKeyAct", "ReplaceAct", "MakeCsrAct", "StartRunAct", "WriteOKAct", "SignFailAct",
+    expected = ["EditAct", "TouchAct", "DeleteAct", "TruncateAct", "StripKeyAct", "ReplaceAct", "MakeCsrAct", "EditProfileAct", "ExpireAct", "SetIssuerAct", "StartRunAct", "WriteOKAct", "SignFailAct",
                 "WriteErrAct", "WriteTornAct", "DieAct"]
     missing = [a for a in expected if acts.get(a, 0) == 0]
     if missing:
